@@ -471,3 +471,39 @@ class NativeNovelOrf(NativeCheck):
 
 
 NATIVE = [NativeNovelOrf()]
+
+
+# ----------------------------------------------------------------------------
+# the ORF FASTA
+# ----------------------------------------------------------------------------
+from .c18c import PoolWrite as _PoolWrite18
+
+
+@register
+class WriteOrf(_PoolWrite18):
+    """write_orf(orfs, handle): every ORF record collected is handed to the FASTA writer on the given handle exactly once, in order, titled with its
+    description (tx|gene|orf id|start-end)"""
+    path, qualname, props = 'moPepGen/cli/call_novel_orf.py', 'write_orf', ('C08',)
+
+    def setup(self, I):
+        st = types.SimpleNamespace(log=[])
+        st.n = I.e.int('n_orfs')
+        I.e.assume(st.n >= 0)
+        zz = lambda i: i if is_z3(i) else z3.IntVal(i)
+        st.records = FnView(st.n, lambda i: SymObj('Pep18w', i=zz(i), description=SymObj('Header18w', i=zz(i)), id=SymObj('FirstWord18w', i=zz(i)), name=SymObj('FirstWord18w', i=zz(i))),
+                            tag='ORF records')
+        st.handle = SymObj('File18w')
+        st.args = [st.records, st.handle]
+        self._cur = st
+        return st
+
+    def post_return(self, I, st, ret):
+        e = I.e
+        ws = [x for x in st.log if x[0] == 'writer']
+        e.prove('C08/write-orf/nothing-is-opened-the-given-handle-is-used', z3.BoolVal(not [x for x in st.log if x[0] == 'open']))
+        ok = len(ws) == 1 and ws[0][1] is st.handle and ws[0][2] is not None
+        title = None
+        if ok:
+            probe = SymObj('Pep18w', i=z3.IntVal(0), description=SymObj('Header18w', i=z3.IntVal(0)), id=SymObj('FirstWord18w', i=z3.IntVal(0)), name=SymObj('FirstWord18w', i=z3.IntVal(0)))
+            title = I.call(ws[0][2], [probe], {})
+        e.prove('C08/write-orf/one-writer-on-the-given-handle-whose-title-is-the-description-of-the-record', z3.BoolVal(bool(ok and isinstance(title, SymObj) and title.cls == 'Header18w')))
